@@ -97,6 +97,23 @@ def replay_factory(chk, st):
             bad = None if same else cmp_vec(np.asarray(res, dtype=float), np.asarray(direct, dtype=float), tol=1e-12)
             if bad:
                 chk.violation('C20:factory:%s:%s:not-forwarded' % (name, kw), 'create_window does not forward %s to %s: %s' % (kwargs, fn.__name__, bad), case)
+        if kw != 'none' and not isinstance(KWVALUES[kw], (str, bool)):
+            # a nearby value of the same parameter gives another window (the parameter is used as given, not rounded,
+            # truncated or looked up in a table keyed too coarsely), whichever of the two is asked for first
+            for step in ((1,) if kw == 'nbar' else (0.4, -0.4) if kw != 'r' else (0.05, -0.05)):
+                near = {kw: KWVALUES[kw] + step}
+                okn, wn = call_guard(create_window, N, name, **near)
+                okr, again = call_guard(create_window, N, name, **kwargs)
+                if okn and cmp_vec(np.asarray(wn, dtype=float), np.asarray(res, dtype=float), tol=1e-12) is None:
+                    chk.violation('C20:factory:%s:%s:nearby-value-same-window' % (name, kw), '%s and %s give the same %s window' % (kwargs, near, name), dict(case, near=near))
+                if okr and not np.array_equal(np.asarray(again, dtype=float), np.asarray(res, dtype=float), equal_nan=True):
+                    chk.violation('C20:factory:%s:%s:depends-on-earlier-calls' % (name, kw), 'create_window(%d, %r, %s) changes after a call with %s' % (N, name, kwargs, near), dict(case, near=near))
+        if accept and kw != 'none':
+            # a documented parameter does not make an undocumented one acceptable
+            okb, _ = call_guard(create_window, N, name, **dict(kwargs, norm_unknown=True))
+            if okb:
+                chk.violation('C20:factory:%s:%s:accepts-unknown-next-to-documented' % (name, kw),
+                              'create_window(%d, %r, %s, norm_unknown=True) accepts the undocumented parameter' % (N, name, kwargs), case)
         if kw != 'none':
             okd, dflt = call_guard(create_window, N, name)
             if okd and cmp_vec(np.asarray(res, dtype=float), np.asarray(dflt, dtype=float), tol=1e-12) is None:
